@@ -85,6 +85,8 @@ SetW(wid, w) == [x \in DOMAIN ws \cup {wid} |-> IF x = wid THEN w ELSE ws[x]]
 (* result conformance: error CLASS, result SET (order of a list is not specified) *)
 ResOK(exp, got, kind) ==
   \/ kind \in Relax /\ kind \in {"read", "list", "listowner", "snapshot"}
+  \* storage.ErrInconsistent: the backend could not establish the requested consistency and returned no data
+  \/ kind \in {"read", "list"} /\ got.t = "err" /\ got.e = "inconsistent"
   \/ /\ exp.t = "err" /\ got.t = "err" /\ got.e \in exp.errs
   \/ /\ exp.t = "ok" /\ got.t = "ok" /\ ToSet(got.rs) = exp.rs /\ Len(got.rs) = Cardinality(exp.rs)
 
@@ -192,9 +194,11 @@ Ret == /\ Trace[l].e = "ret"
        /\ done' = done \ {Trace[l].id}
        /\ UNCHANGED <<st, pend, ws, hdr, aux>>
 
-\* a watch opened after a restore completed cannot be served a listing from before it
+\* a watch opened after a restore RETURNED cannot be served a listing from before that restore
+\* (one opened while the restore is still running may: it is closed when the restore finishes)
 WOpen == /\ Trace[l].e = "wopen"
-         /\ Trace[l].wid \in DOMAIN ws => ws[Trace[l].wid].ep = st.ep
+         /\ Trace[l].wid \in DOMAIN ws =>
+              ws[Trace[l].wid].ep >= Cardinality({j \in aux.rst : Trace[j].rat # 0 /\ Trace[j].rat < Trace[l].at})
          /\ UNCHANGED <<st, pend, done, ws, hdr, aux>>
 
 WEv == /\ Trace[l].e = "wev"
